@@ -90,6 +90,20 @@ def jOptI : Option Int → Lean.Json
 
 def jInts (l : List Int) : Lean.Json := .arr (l.map (fun i => Lean.Json.num (JsonNumber.fromInt i))).toArray
 
+def decItem : Lean.Json → Except String PathItem
+  | .arr #[.str "p", .num n] => pure (.param n.mantissa.toNat)
+  | .arr #[.str "c", k] => do pure (.const (← decKey k))
+  | _ => throw "path item must be [\"p\", id] or [\"c\", key]"
+
+def encKeyPart : KeyPart → Lean.Json
+  | .p id => .arr #[.str "p", .num (JsonNumber.fromNat id)]
+  | .i v => .arr #[.str "i", .num (JsonNumber.fromInt v)]
+  | .s v => .arr #[.str "s", .str (String.ofList v)]
+
+def encItem : PathItem → Lean.Json
+  | .param id => .arr #[.str "p", .num (JsonNumber.fromNat id)]
+  | .const k => .arr #[.str "c", encKey k]
+
 def handle (j : Lean.Json) : Except String Lean.Json := do
   let op ← argStr j "op"
   match op with
@@ -136,6 +150,16 @@ def handle (j : Lean.Json) : Except String Lean.Json := do
                  | .error _ => .null),
         ("length", match tv with | .ok v => .num (JsonNumber.fromNat (pyJsonArrayLength v)) | .error _ => .null),
         ("dumps", .str (String.ofList (dumps doc)))])
+  | "paramkey" =>
+      -- the paths of one statement, in the order the builder meets them: key of each, and which earlier path's parameter is reused
+      let paths ← (← argArr j "paths").mapM (fun p => match p with
+        | .arr a => a.toList.mapM decItem
+        | _ => throw "paths: list of lists")
+      let step := fun (acc : Registry × List Lean.Json) (items : List PathItem) =>
+        let r := makeComposite acc.1 items
+        (r.2, acc.2 ++ [Json.mkObj [("key", .arr ((paramKey items).map encKeyPart).toArray), ("items", .arr (r.1.map encItem).toArray)]])
+      let res := paths.foldl step (([] : Registry), ([] : List Lean.Json))
+      pure (Json.mkObj [("params", .arr res.2.toArray)])
   | "unwrap" =>
       match j.getObjVal? "text" with
       | .ok (.str s) => pure (Json.mkObj [("ok", encOptText (pyJsonUnwrap (some s.toList)))])
